@@ -162,12 +162,34 @@ def run(R):
                     R.signal('correspondence', {'def': 'norm_elt', 'values': fin, 'dV': dV, 'x': float(x), 'implementation': float(g), 'model': mv})
             if x == NINF and g != NINF:
                 bad = bad or dict(case, check='-inf stays -inf under normalisation')
+    # composition (Props/C04.v: C04_marginalise_successive_axes, C04_normalise_idempotent) on the implementation
+    for i in range(R.n(150, 3000)):
+        r1, r2, k = R.rng.randint(2, 5), R.rng.randint(2, 5), R.rng.randint(2, 4)
+        a3 = np.array([[[R.rng.uniform(-900, 900) if R.rng.random() < 0.5 else R.rng.uniform(-5, 5) for _ in range(k)] for _ in range(r2)] for _ in range(r1)])
+        dV1, dV2 = R.rng.choice([1.0, 0.5, 1e-3, 7.0]), R.rng.choice([1.0, 0.25, 13.0])
+        R.count(('successive', i))
+        with np.errstate(all='ignore'):
+            # blocks of rows are marginalised separately (2-D, as everywhere in MTfit), the partial results stacked and marginalised
+            step1 = np.array([np.asarray(pr.ln_marginalise(a3[b].copy(), axis=0, dV=dV1), dtype=float).flatten() for b in range(r1)])
+            step2 = np.asarray(pr.ln_marginalise(step1.copy(), axis=0, dV=dV2), dtype=float).flatten()
+        for j in range(k):
+            want = exact_lse(a3[:, :, j].flatten().tolist(), dV1 * dV2)
+            if len(step2) != k or not finite_ok(step2[j]) or not close(float(step2[j]), want, 1e-9):
+                bad = bad or {'op': 'marginalise twice', 'check': 'marginalising one axis after the other equals marginalising both at once', 'input': a3.tolist(),
+                              'dV': [dV1, dV2], 'output': step2.tolist(), 'column': j, 'expected': want}
+        v = a3[:, 0, 0].copy()
+        with np.errstate(all='ignore'):
+            once = np.asarray(pr.ln_normalise(v.copy(), dV2), dtype=float).flatten()
+            twice = np.asarray(pr.ln_normalise(once.copy(), dV2), dtype=float).flatten()
+        if len(once) != len(twice) or any(not close(float(x), float(y), 1e-9) and abs(x - y) > 1e-9 for x, y in zip(once, twice)):
+            bad = bad or {'op': 'normalise twice', 'check': 'a normalised slice is unchanged by normalising again', 'input': v.tolist(), 'dV': dV2,
+                          'once': once.tolist(), 'twice': twice.tolist()}
     R.cov['input_styles'] = styles
     if bad:
         R.violation('log-domain reduction: %s fails' % bad['check'], bad)
     R.cov['rule'] = ('random 1-D/2-D arrays, matrices and LnPDF objects, both axes, values in [-1e5, 1e4] with column styles '
                      '(large positive, large negative, mixed columns, wide spread), random -inf patterns incl. whole slices, dV > 0; '
-                     'non-trivial = not the small-magnitude style')
+                     'non-trivial = not the small-magnitude style; blocks of rows marginalised separately, stacked and marginalised again against the joint exact value, slices normalised twice')
     return proved
 
 
